@@ -29,11 +29,20 @@
 (*   EmbFinally      compile_embedded_value resets parser.embedded_objects *)
 (*                   in a finally clause                                   *)
 (*   RestoreOnReturn compile_string restores parser.file/.mof on success   *)
+(*   EmbRestoreAll   compile_embedded_value restores parser.file/.mof after*)
+(*                   a single string AND after a list of strings (FALSE:   *)
+(*                   only in the single-string branch; after an array of   *)
+(*                   embedded values parser.mof is the last element)       *)
+(*   SuperCheckFirst MOFWBEMConnection.CreateClass looks the superclass up *)
+(*                   BEFORE it stores the new class (FALSE: stores first,  *)
+(*                   so `class X : X` finds itself, is accepted and is its *)
+(*                   own ancestor from then on)                            *)
 (***************************************************************************)
 EXTENDS MofCompile
 
 CONSTANTS IncludeGuard, NsNoneCheck, HexBounds, CtxBounds, ValueWrapped,
-          RepoWrapped, EmbFinally, RestoreOnReturn
+          RepoWrapped, EmbFinally, RestoreOnReturn, EmbRestoreAll,
+          SuperCheckFirst
 
 AnyMof == {"ok"} \cup MOFErrors
 
@@ -106,6 +115,9 @@ RepoOut(p) ==
 (* ---- one production ------------------------------------------------------*)
 (* env: nsw  the target namespace was switched away from the prelude's     *)
 (*      emb  parser.embedded_objects is (wrongly still) a list             *)
+(*      cyc  the class an `of_prev` instance names is its own ancestor in  *)
+(*           the repository: GetClass(LocalOnly=False) follows the         *)
+(*           superclass chain recursively and never ends                   *)
 UsesPrelude(p) == p.k \in {"class", "instance"}
 
 ImplProd(p, env) ==
@@ -118,6 +130,7 @@ ImplProd(p, env) ==
   ELSE
   CASE p.d = "none" ->
          IF p.v = "hexesc_end" THEN {IF HexBounds THEN "ok" ELSE "IndexError"}
+         ELSE IF p = OfPrev /\ env.cyc THEN {"RecursionError"}
          ELSE {"ok"}
     [] p.d = "lex" ->
          IF p.k = "garbage" THEN {"MOFParseError"}
@@ -148,6 +161,8 @@ ImplProd(p, env) ==
          THEN IF p.v \in {"self", "mutual"} THEN {"PUSH"} ELSE {"OSError"}
          ELSE IF p.v \in {"super_in_searchpath", "class_in_searchpath"}
          THEN {"ok"}
+         ELSE IF p.v = "super_self"
+         THEN {IF SuperCheckFirst THEN "MOFDependencyError" ELSE "ok"}
          ELSE IF p.v \in {"super_cycle_searchpath", "class_cycle_searchpath"}
          THEN IF IncludeGuard THEN {"MOFParseError", "MOFDependencyError"}
               ELSE {"RecursionError"}
@@ -157,9 +172,19 @@ ImplProd(p, env) ==
 
 (* an instance production that runs the embedded-object compiler, and how *)
 EmbRuns(p) == p.k = "instance" /\
-              ((p.d = "none" /\ p.v = "emb_ok") \/
+              (p \in NestedOk \/
                (p.d = "value" /\ p.v \in {"emb_bad_syntax", "emb_class",
                                           "emb_unknown_class"}))
+
+(* the value compiled is a list of strings (array-typed property) *)
+EmbList(p) == p \in NestedOk /\ p.v \in {"emb_array_ok", "emb_array_one"}
+
+(* the repository's view of "the class declared last in this text" after  *)
+(* class production p was accepted                                         *)
+CycAfter(p, cyc) == IF p.k # "class" THEN cyc
+                    ELSE IF p.d = "dependency" /\ p.v = "super_self" THEN TRUE
+                    ELSE IF p = SubOfPrev THEN cyc
+                    ELSE FALSE
 
 (* ---- whole-session prediction for the intended code shape (used by the  *)
 (* trace module to report impl drift; never a verdict).  `loose`: an       *)
@@ -175,7 +200,8 @@ PredictSeq(ses, prods, i, nsw, loose) ==
                    ELSE IF p.k = "include" /\ p.d = "dependency"
                            /\ p.v \in {"self", "mutual"}
                    THEN MOFErrors
-                   ELSE ImplProd(p, [nsw |-> nsw, emb |-> FALSE])
+                   ELSE ImplProd(p, [nsw |-> nsw, emb |-> FALSE,
+                                     cyc |-> FALSE])
            nsw2 == nsw \/ (p.k = "namespace" /\ p.d = "none" /\ p.v = "other")
                        \/ (p.k = "include" /\ p.v = "inc2"
                            /\ \E q \in Rng(ses.inc) :
@@ -187,8 +213,10 @@ PredictSeq(ses, prods, i, nsw, loose) ==
        \cup (IF "ok" \in here
              THEN PredictSeq(ses, prods, i + 1, nsw2, loose2) ELSE {})
 
-NonPlain(ses) == {i \in DOMAIN ses.main : ses.main[i] \notin Ctx \cup {Inc2}}
-NonPlainInc(ses) == {i \in DOMAIN ses.inc : ses.inc[i] \notin Ctx \cup {Inc2}}
+\* valid helper productions of the parts D and E count like context
+Neutral == Ctx \cup {Inc2} \cup Helpers
+NonPlain(ses) == {i \in DOMAIN ses.main : ses.main[i] \notin Neutral}
+NonPlainInc(ses) == {i \in DOMAIN ses.inc : ses.inc[i] \notin Neutral}
 Predict(ses) ==
   IF Cardinality(NonPlain(ses)) + Cardinality(NonPlainInc(ses)) > 1
   THEN Admissible(ses)   \* several defects (random driver): no prediction
